@@ -436,6 +436,30 @@ def gen_exact_hit_then_nondyadic(rng, cfg):
     return x[: N]
 
 
+def gen_mean_reaches_u(rng, cfg):
+    """Finite population with an upper bound that is NOT a dyadic rational (u = 2/(2-v), 4/3, 1.2: what comparison audits
+    have): observations 0 and u whose running total brings the null conditional mean to u (exactly, or within rounding)
+    when r cards are left, followed by up to r observations equal to u.  From there on the conditional mean is u only up
+    to the rounding of N t - S, which drifts by a few ulps over the run."""
+    if cfg["N"] == "inf":
+        return None
+    u = rng.choice((4 / 3, 1.2, 2 / 1.9, 2 / 1.7, 1.1, 0.7, 2 / 1.95, 1.3))
+    r = rng.randint(2, 30)
+    k = rng.randint(0, 6)
+    z = rng.randint(1, 40)
+    N = r + k + z
+    cfg["u"], cfg["N"], cfg["t"] = u, N, (r + k) * u / N
+    for key in ("N_warm", "u_built", "int_dtype", "float_dtype", "N_repr"):
+        cfg.pop(key, None)
+    if "eta" in cfg["kw"]:
+        cfg["kw"]["eta"] = cfg["t"] + (u - cfg["t"]) * rng.choice((0.25, 0.5, 0.75))
+    if "lam" in cfg["kw"]:
+        cfg["kw"]["lam"] = (1 / u) * rng.choice((0.25, 0.5, 1.0))
+    body = [u] * k + [0.0] * z
+    rng.shuffle(body)
+    return body + [u] * rng.randint(max(1, r - 3), r)
+
+
 def in_domain(cfg, x):
     """Documented domain of the test methods (DESIGN C11 F)."""
     N = cfgN(cfg)
